@@ -1996,6 +1996,9 @@ func (in *inliner) inlineInStmtCore(p *packages.Package, f *ast.File, s ast.Stmt
 		case nres == 0:
 			return pre, nil, true
 		case nres == 1:
+			if es, isExpr := s.(*ast.ExprStmt); isExpr && ast.Unparen(es.X) == ast.Expr(call) {
+				return pre, nil, true // the result was discarded: nothing is left of the statement
+			}
 			*slot = outs[0]
 			return pre, s, true
 		default:
